@@ -397,13 +397,13 @@ func (m *Model) Do(op drv.Op) drv.Resp {
 		for tn, keys := range op.BGKeys {
 			t, ok := m.Tables[tn]
 			if !ok {
-				return reject(drv.EAnyErr)
+				return reject(drv.ENotFound)
 			}
 			r.BGResp[tn] = []val.Item{}
 			for _, k := range keys {
 				ks, _, ok := t.keyOf(k)
 				if !ok {
-					return reject(drv.EAnyErr)
+					return reject(drv.EValidation) // a key lacking a key attribute or carrying a wrong type (C13)
 				}
 				if it, ok := t.Items[ks]; ok {
 					r.BGResp[tn] = append(r.BGResp[tn], it.Clone())
@@ -645,14 +645,14 @@ func (m *Model) batchWrite(op drv.Op) drv.Resp {
 	for _, r := range op.Batch {
 		t, ok := m.Tables[r.Table]
 		if !ok {
-			return reject(drv.EAnyErr)
+			return reject(drv.ENotFound)
 		}
 		attrs := r.Put
 		if attrs == nil {
 			attrs = r.Del
 		}
 		if _, _, ok := t.keyOf(attrs); !ok {
-			return reject(drv.EAnyErr)
+			return reject(drv.EValidation) // a key lacking a key attribute or carrying a wrong type (C13)
 		}
 		if r.Put != nil && !t.indexTypeOK(r.Put) {
 			return reject(drv.EAnyErr)
